@@ -571,7 +571,8 @@ fn encode_tag(u: &Universe, m: &Model, last: &str) -> String {
     if missing.is_empty() {
         format!("after-{last}")
     } else {
-        format!("undefined-referenced-types={}", missing.into_iter().collect::<Vec<_>>().join(","))
+        // (which types are missing does not change the cause)
+        "undefined-referenced-types".to_string()
     }
 }
 
